@@ -214,26 +214,6 @@ macro_rules! tri {
 
 pub(crate) use tri;
 
-struct DepthGuard<'a, R> {
-    de: &'a mut Deserializer<R>,
-}
-
-impl<'a, 'de, R: Reader<'de>> DepthGuard<'a, R> {
-    fn guard(de: &'a mut Deserializer<R>) -> Result<Self> {
-        de.remaining_depth -= 1;
-        if de.remaining_depth == 0 {
-            return Err(de.parser.error(RecursionLimitExceeded));
-        }
-        Ok(Self { de })
-    }
-}
-
-impl<'a, R> Drop for DepthGuard<'a, R> {
-    fn drop(&mut self) {
-        self.de.remaining_depth += 1;
-    }
-}
-
 fn visit_number<'de, V>(num: &ParserNumber, visitor: V) -> Result<V::Value>
 where
     V: de::Visitor<'de>,
@@ -289,6 +269,15 @@ impl<'de, R: Reader<'de>> Deserializer<R> {
     #[cold]
     fn peek_invalid_type(&mut self, peek: u8, exp: &dyn Expected) -> Error {
         self.parser.peek_invalid_type(peek, exp)
+    }
+
+    // enter a nested container; the caller restores `remaining_depth` after visiting it
+    fn enter_nested(&mut self) -> Result<()> {
+        if self.remaining_depth <= 1 {
+            return Err(self.parser.error(RecursionLimitExceeded));
+        }
+        self.remaining_depth -= 1;
+        Ok(())
     }
 
     pub fn end_seq(&mut self) -> Result<()> {
@@ -467,8 +456,10 @@ impl<'de, 'a, R: Reader<'de>> de::Deserializer<'de> for &'a mut Deserializer<R> 
             },
             b'[' => {
                 let ret = {
-                    let _ = DepthGuard::guard(self);
-                    visitor.visit_seq(SeqAccess::new(self))
+                    tri!(self.enter_nested());
+                    let ret = visitor.visit_seq(SeqAccess::new(self));
+                    self.remaining_depth += 1;
+                    ret
                 };
                 match (ret, self.end_seq()) {
                     (Ok(ret), Ok(())) => Ok(ret),
@@ -477,8 +468,10 @@ impl<'de, 'a, R: Reader<'de>> de::Deserializer<'de> for &'a mut Deserializer<R> 
             }
             b'{' => {
                 let ret = {
-                    let _ = DepthGuard::guard(self);
-                    visitor.visit_map(MapAccess::new(self))
+                    tri!(self.enter_nested());
+                    let ret = visitor.visit_map(MapAccess::new(self));
+                    self.remaining_depth += 1;
+                    ret
                 };
                 match (ret, self.end_map()) {
                     (Ok(ret), Ok(())) => Ok(ret),
@@ -751,8 +744,10 @@ impl<'de, 'a, R: Reader<'de>> de::Deserializer<'de> for &'a mut Deserializer<R> 
         let value = match peek {
             b'[' => {
                 let ret = {
-                    let _ = DepthGuard::guard(self);
-                    visitor.visit_seq(SeqAccess::new(self))
+                    tri!(self.enter_nested());
+                    let ret = visitor.visit_seq(SeqAccess::new(self));
+                    self.remaining_depth += 1;
+                    ret
                 };
                 match (ret, self.end_seq()) {
                     (Ok(ret), Ok(())) => Ok(ret),
@@ -797,8 +792,10 @@ impl<'de, 'a, R: Reader<'de>> de::Deserializer<'de> for &'a mut Deserializer<R> 
         let value = match peek {
             b'{' => {
                 let ret = {
-                    let _ = DepthGuard::guard(self);
-                    visitor.visit_map(MapAccess::new(self))
+                    tri!(self.enter_nested());
+                    let ret = visitor.visit_map(MapAccess::new(self));
+                    self.remaining_depth += 1;
+                    ret
                 };
                 match (ret, self.end_map()) {
                     (Ok(ret), Ok(())) => Ok(ret),
@@ -829,8 +826,10 @@ impl<'de, 'a, R: Reader<'de>> de::Deserializer<'de> for &'a mut Deserializer<R> 
         let value = match peek {
             b'[' => {
                 let ret = {
-                    let _ = DepthGuard::guard(self);
-                    visitor.visit_seq(SeqAccess::new(self))
+                    tri!(self.enter_nested());
+                    let ret = visitor.visit_seq(SeqAccess::new(self));
+                    self.remaining_depth += 1;
+                    ret
                 };
                 match (ret, self.end_seq()) {
                     (Ok(ret), Ok(())) => Ok(ret),
@@ -839,8 +838,10 @@ impl<'de, 'a, R: Reader<'de>> de::Deserializer<'de> for &'a mut Deserializer<R> 
             }
             b'{' => {
                 let ret = {
-                    let _ = DepthGuard::guard(self);
-                    visitor.visit_map(MapAccess::new(self))
+                    tri!(self.enter_nested());
+                    let ret = visitor.visit_map(MapAccess::new(self));
+                    self.remaining_depth += 1;
+                    ret
                 };
                 match (ret, self.end_map()) {
                     (Ok(ret), Ok(())) => Ok(ret),
@@ -872,8 +873,10 @@ impl<'de, 'a, R: Reader<'de>> de::Deserializer<'de> for &'a mut Deserializer<R> 
             Some(b'{') => {
                 self.parser.read.eat(1);
                 let value = {
-                    let _ = DepthGuard::guard(self);
-                    tri!(visitor.visit_enum(VariantAccess::new(self)))
+                    tri!(self.enter_nested());
+                    let ret = visitor.visit_enum(VariantAccess::new(self));
+                    self.remaining_depth += 1;
+                    tri!(ret)
                 };
 
                 match self.parser.skip_space() {
